@@ -25,9 +25,9 @@ def run(ctx):
            cells=[('code%d' % c, [{'code_i': c}]) for c in range(NC)], timeout=tmo, confirm='confirm_formats',
            desc='every exported error class x 9 mimetypes x 4 details x default/overridden code: status == code, class code == http.HTTPStatus by name, '
                 'adapt(): body == to_<fmt>(), Content-Type agrees, JSON parses with the 4 fields, XML well formed, markup escaped'),
-        Ob('negotiation', 'ob_negotiation', '', packed=[('code_i', NC), ('choice', 6), ('which', 2)],
+        Ob('negotiation', 'ob_negotiation', '', packed=[('code_i', NC), ('choice', 6), ('which', 2), ('pre_i', 6)],
            cells=[('code%d' % c, [{'code_i': c}]) for c in range(NC)], timeout=tmo, confirm='confirm_negotiation',
-           desc='ErrorHandler.render_error / default_render_error return the same error adapted to exactly what best_match chose (stub: any element or None -> text/plain)'),
+           desc='ErrorHandler.render_error / default_render_error return the same error adapted to exactly what best_match chose - also when the error instance was already in another format (served before, or built with mimetype=) (stub: any element or None -> text/plain)'),
     ]
     res = run_obligations('C09', 'harness.c09', obs, ctx.tier)
     import harness.c09 as H
